@@ -43,6 +43,16 @@ def run(p):
         tol = 1e-9 * d + 4 * 2.3e-16 * m
         p.check(abs(e3 - e2) <= tol and abs(n3 - n2) <= tol, 'join-radiate-inverse', 'join_radiate', inp,
                 [e3, n3], [e2, n2], f'radiations({e1},{n1},*joins(...))')
+    # negative zero as a coordinate difference (what round(-0.0002, 3) or -0.0 - 0.0 give): still a bearing in [0, 360) — due south is 180
+    for (x_, y_, brg) in [(-0.0, -5.0, 180.0), (0.0, -5.0, 180.0), (-0.0, 5.0, 0.0), (-5.0, -0.0, 270.0), (5.0, -0.0, 90.0)]:
+        import geodepy.convert as _CV
+        d, b = _CV.rect2polar(x_, y_)
+        p.case('bearing_axes', ['rect2polar', repr(x_), repr(y_)])
+        p.check(0 <= b < 360 and abs(b - brg) < 1e-12 and abs(d - 5) < 1e-12, 'bearing-range', 'bearing_axes', [repr(x_), repr(y_)], [d, b], [5, brg],
+                f'rect2polar({x_!r}, {y_!r})')
+        d, b = S.joins(0.0, 10.0, x_, 10.0 + y_)
+        p.check(0 <= b < 360 and abs(b - brg) < 1e-12, 'bearing-range', 'bearing_axes', ['joins', repr(x_), repr(y_)], [d, b], [5, brg],
+                f'joins(0.0, 10.0, {x_!r}, {10.0 + y_!r})')
     # cardinal bearings: 0 = north, 90 = east
     for (de, dn, brg) in [(0, 1, 0.0), (1, 0, 90.0), (0, -1, 180.0), (-1, 0, 270.0)]:
         d, b = S.joins(10.0, 20.0, 10.0 + de * 5, 20.0 + dn * 5)
@@ -120,12 +130,28 @@ def run(p):
         except ValueError:
             pass
     # 4/5. first velocity correction: defined, proportional, Ciddor form, 1 ppm agreement
+    prev_atm = None
     for _ in range(p.n(1500, 60000)):
-        t = rng.choice([0.0, 0.0, rng.uniform(-20, 45), -20.0, 45.0])
+        t = rng.choice([0.0, 0.0, rng.uniform(-20, 45), -20.0, 45.0, float(rng.randint(-20, 45)), rng.choice([-1.0, -2.0, -1, -2])])
         pr = rng.uniform(650, 1100)
         rh = rng.choice([0.0, 0.0, rng.uniform(0, 100), 100.0])
         wl = rng.uniform(0.4, 1.6)
         co2 = rng.uniform(300, 600)
+        if prev_atm is not None and rng.random() < 0.3:
+            # the previous atmosphere with ONE value changed (whole numbers among them, -1 and -2 hash alike): whatever the routines
+            # remember from one call must not leak into the next
+            t, pr, rh, wl, co2 = prev_atm
+            which = rng.choice(['t', 't', 'pr', 'rh', 'co2'])
+            if which == 't':
+                t = rng.choice([v for v in (-2.0, -1.0, 0.0, 1.0, -2, -1, 15.0, t + 1.0) if v != t])
+            elif which == 'pr':
+                pr = float(rng.randint(650, 1100))
+            elif which == 'rh':
+                rh = rng.choice([v for v in (0.0, 50.0, 100.0, 1.0) if v != rh])
+            else:
+                co2 = float(rng.randint(300, 600))
+            p.stats.add('fvc:one-value-changed-successor')
+        prev_atm = (t, pr, rh, wl, co2)
         dist = 10 ** rng.uniform(0, 4.7)
         params = S.first_vel_params(wl, None, rng.uniform(1.00025, 1.00031), None)
         inp = [dist, params, t, pr, rh, wl, co2]
